@@ -178,7 +178,7 @@ func execHist(raw json.RawMessage) (res execResult, err error) {
 func init() {
 	props["C10"] = &propDef{
 		header:    "From BE Require Import Corr.CheckC10.",
-		headers:   map[string]string{"H": "From BE Require Import Corr.CheckHist."},
+		headers:   map[string]string{"H": "From BE Require Import Corr.CheckHist.", "R": "From BE Require Import Corr.CheckRr."},
 		rule:      c10Rule,
 		shardSize: 6,
 		gen: func(tier string, r *Rand, add func(in interface{})) {
@@ -228,8 +228,40 @@ func init() {
 				}
 				add(h)
 			}
+			// roaring histories with failing retrievals: a retrieval that fails half-way (after some field's
+			// bitmaps went into the temporary bitmap) must not leak into later retrievals of ANY scanner
+			nr := 25
+			if tier == "thorough" {
+				nr = 1500
+			}
+			for i := 0; i < nr; i++ {
+				c := genRrCase(r, 2+r.Intn(3), 0, 30, 8+r.Intn(16), 1+r.Intn(3))
+				var ops []rOp
+				for _, op := range c.Ops {
+					if (op.Op == "retrieve" || op.Op == "docs") && r.Chance(45) {
+						bad := setAssign(op.A, r.Intn(len(c.Fields)), pick(r, []TV{tvBool(true), {T: "other:struct"}}))
+						s2 := 5 + r.Intn(3) // other scanners, created on demand (they take a bitmap from the pool)
+						ops = append(ops, rOp{S: s2, Op: "reset"}, rOp{S: s2, Op: pick(r, []string{"retrieve", "docs"}), A: bad})
+						ops = append(ops, rOp{S: 8 + i%3, Op: "reset"}, rOp{S: 8 + i%3, Op: "retrieve", A: op.A}, rOp{S: 8 + i%3, Op: "raw"})
+					}
+					ops = append(ops, op)
+				}
+				c.Ops = ops
+				add(c)
+			}
 		},
-		exec: execHist,
+		exec: func(raw json.RawMessage) (execResult, error) {
+			var probe struct {
+				Fields json.RawMessage `json:"fields"`
+			}
+			json.Unmarshal(raw, &probe)
+			if probe.Fields != nil {
+				res, err := execRr(raw)
+				res.Family = "R"
+				return res, err
+			}
+			return execHist(raw)
+		},
 		extra: func(tier string, seed uint64, outdir string) (map[string]interface{}, []string) {
 			v := extraViolations
 			extraViolations = nil
